@@ -9,8 +9,9 @@ dst = f'/verif/seeded/{prop}-{n}'
 os.makedirs(dst, exist_ok=True)
 shutil.copy(f'{src}/change{n}.diff', f'{dst}/patch.diff')
 shutil.copy(f'{src}/demo{n}_test.go', f'{dst}/demo_test.go')
-if os.path.exists(f'{src}/notes.md'):
-    shutil.copy(f'{src}/notes.md', f'{dst}/notes.md')
+notes = f'{src}/notes-round2.md' if int(n) > 2 and os.path.exists(f'{src}/notes-round2.md') else f'{src}/notes.md'
+if os.path.exists(notes):
+    shutil.copy(notes, f'{dst}/notes.md')
 head = subprocess.run(['git', '-C', '/repo', 'rev-parse', '--short', 'HEAD'], capture_output=True, text=True).stdout.strip()
 meta = {
     "id": f"{prop}-{n}", "breaks_property": prop,
